@@ -48,6 +48,14 @@ file_create(struct file* file, const char* filename, size_t bytesof_filename)
             close(file->fid);
             CHECK_POSIX(tmp);
         }
+        // The file is ours now: start from an empty file, as CREATE_ALWAYS
+        // does on windows. (Truncating at open() would empty a file that
+        // another writer holds locked.)
+        if (ftruncate(file->fid, 0) < 0) {
+            int tmp = errno;
+            close(file->fid);
+            CHECK_POSIX(tmp);
+        }
     }
     return 1;
 Error:
